@@ -32,6 +32,7 @@ import (
 const rule = "a (transaction, key, chain id, mode) case is non-trivial when at least one holds: data >= 56 bytes, an integer field >= 2^64, `to` absent, V >= 256 (chain id >= 111), R or S shorter than 32 bytes, chain id 0; distinct by hash of the case JSON"
 
 type Case struct {
+	KeyTrim bool       `json:"keyTrim,omitempty"` // hand the key over without its leading zero bytes
 	Tx      txmodel.Tx `json:"tx"`
 	Key     string     `json:"key"` // 32 bytes hex
 	ChainID int64      `json:"chainId"`
@@ -97,6 +98,9 @@ type sigInfo struct {
 func judge(c Case) (vs []evid.Violation) {
 	keyBytes, _ := hex.DecodeString(c.Key)
 	d := new(big.Int).SetBytes(keyBytes)
+	if c.KeyTrim {
+		keyBytes = d.Bytes() // the same scalar in minimal big-endian form
+	}
 	kp := secp256k1.KeyPairFromBytes(keyBytes)
 	px, py := secp.PubKey(d)
 	refAddr := secp.Address(px, py)
@@ -424,6 +428,7 @@ func TestCheck(t *testing.T) {
 	var pool []Case
 	rec.Rapid(t, "sign", rec.N(1500, 12000), func(rt *rapid.T) {
 		c := Case{Tx: genTx(rt, maxData), Key: genKey(rt), ChainID: genChainID(rt), Mode: rapid.SampledFrom(modes).Draw(rt, "mode")}
+		c.KeyTrim = c.Key[:2] == "00" && rapid.Bool().Draw(rt, "keyTrim")
 		if rapid.IntRange(0, 3).Draw(rt, "grind") == 0 {
 			grind(&c, 700)
 		}
